@@ -339,6 +339,7 @@ type performer struct {
 	log    []Delivery
 	sent   map[string]bool // client-sent header values (to tell minted ids from relayed ones)
 	clFromHeader bool      // Response.ContentLength from the scripted Content-Length header (-1 when absent)
+	runaway      chan struct{} // closed when the case ends; a request with hundreds of deliveries is parked on it
 	hook   func(d *Delivery, b *Behaviour)
 }
 
@@ -359,6 +360,13 @@ func (p *performer) Do(req *http.Request) (*http.Response, error) {
 	p.mu.Lock()
 	d := Delivery{URL: req.URL.String(), Host: req.Host, Method: req.Method, Hdrs: req.Header.Clone(), Body: body}
 	p.log = append(p.log, d)
+	if len(p.log) > 300 && p.runaway != nil {
+		// runaway request (unbounded internal recursion): park it instead of letting the stack grow
+		ch := p.runaway
+		p.mu.Unlock()
+		<-ch
+		return nil, errors.New("runaway request stopped by the harness")
+	}
 	bs := p.script[req.URL.Host]
 	var b Behaviour
 	switch len(bs) {
@@ -421,7 +429,7 @@ func rawRequest(addr string, r Req) (ClientObs, error) {
 		return ClientObs{}, err
 	}
 	defer conn.Close()
-	conn.SetDeadline(time.Now().Add(20 * time.Second))
+	conn.SetDeadline(time.Now().Add(6 * time.Second))
 	var b bytes.Buffer
 	fmt.Fprintf(&b, "%s %s HTTP/1.1\r\nHost: %s\r\n", r.Method, r.Target, r.Host)
 	for _, kv := range r.Hdrs {
